@@ -49,14 +49,20 @@ Example C06_example :
   match radmsg2buf md5 m [115] with Ok (Some (b, _)) => wf_packet b = true | _ => False end.
 Proof. vm_compute. repeat split. Qed.
 
-From RSP Require Import Crypt Rewrite Choose Proxy Slots_proofs Dup_proofs Reply_proofs Forward_proofs Wf_proofs Wfrw_proofs.
+From RSP Require Import Crypt Rewrite Choose Proxy Slots_proofs Dup_proofs Reply_proofs Forward_proofs Wf_proofs Wfrw_proofs Keeps_proofs Local_proofs.
 
 (* through the handlers, for every configuration whose rewrite blocks are well-formed (rw_wf: configured
    add/supplement attributes of <= 253 octets, replacement texts made of octets), every state, every received
    packet of >= 20 octets, every digest/regex oracle and every allocation-failure pattern:
 
    - whatever radsrv places in a server table is a well-formed RADIUS packet (length field = octets, 20..4096,
-     attributes tile with lengths 2..255), and a correctly signed Accounting-Request when it is one;
+     attributes tile with lengths 2..255), a correctly signed Accounting-Request when it is one, and - Access-Request,
+     no TTL insertion configured - carries the fresh Request Authenticator and, as first attribute, a Message-
+     Authenticator that verifies under the server's secret;
+   - whatever radsrv itself puts on a client's reply queue (C06_local_reply_wf) is the stored reply of an earlier
+     copy of the request or a well-formed Access-Accept/-Reject/Accounting-Response/NAK carrying the request's
+     Identifier, a Response Authenticator valid under the originating client's secret and (all but Accounting-
+     Response) a verifying Message-Authenticator as first attribute;
    - whatever replyh delivers is a well-formed packet carrying a Response Authenticator valid under the
      receiving client's secret and ITS Request Authenticator, and - Access-Accept/Reject/Challenge, no TTL
      insertion configured - a verifying Message-Authenticator as first attribute.
@@ -64,8 +70,7 @@ From RSP Require Import Crypt Rewrite Choose Proxy Slots_proofs Dup_proofs Reply
    msg_ok is established by the parser and kept by every stage: rewrite blocks (remove, vendor remove, modify,
    vendor modify, supplement, add), TTL check, User-Name rewrite/restoration, CHAP-Challenge completion,
    User-Password / MS-MPPE / Tunnel-Password re-encryption, Message-Authenticator placeholder, TTL insertion
-   (Proofs/Wf_proofs.v, Proofs/Wfrw_proofs.v).  Not covered by theorems: locally generated replies (respond)
-   and the Message-Authenticator clause for forwarded Access-Requests. *)
+   (Proofs/Wf_proofs.v, Proofs/Wfrw_proofs.v, Proofs/Local_proofs.v). *)
 Theorem C06_forwarded_wf : forall md5, (forall x, length (md5 x) = 16%nat) -> (forall x, wf_bytes (md5 x) = true) ->
   forall rx cfg fs st h c now rnd s i b,
   In (OEnq s i b) (snd (radsrv md5 rx cfg fs st h c now rnd)) ->
@@ -74,7 +79,11 @@ Theorem C06_forwarded_wf : forall md5, (forall x, length (md5 x) = 16%nat) -> (f
   (forall r0, get_rq st h = Some r0 -> exists buf, rq_buf r0 = Some buf /\ wf_bytes buf = true /\ (20 <= length buf)%nat) ->
   wf_bytes rnd = true -> is_byte (o_addttl (cf_opt cfg)) = true -> is_byte (sc_addttl (srvconf_of cfg s)) = true -> i < 256 ->
   wf_packet b = true /\
-  (nth 0 b 0 = Consts.RAD_Accounting_Request -> acct_request_auth_ok md5 b (sc_secret (srvconf_of cfg s)) = true).
+  (nth 0 b 0 = Consts.RAD_Accounting_Request -> acct_request_auth_ok md5 b (sc_secret (srvconf_of cfg s)) = true) /\
+  (nth 0 b 0 = Consts.RAD_Access_Request -> o_addttl (cf_opt cfg) = 0 -> sc_addttl (srvconf_of cfg s) = 0 ->
+   firstn 16 (skipn 4 b) = fst (take_rand rnd 16) /\
+   first_is_msgauth b = true /\
+   all_msgauth_ok md5 b (Some (fst (take_rand rnd 16))) (sc_secret (srvconf_of cfg s)) = true).
 Proof. exact radsrv_emits_wf_rw. Qed.
 Print Assumptions C06_forwarded_wf.
 
@@ -95,3 +104,22 @@ Theorem C06_delivered_wf : forall md5, (forall x, length (md5 x) = 16%nat) -> (f
      first_is_msgauth p = true /\ all_msgauth_ok md5 p (Some (rq_rqauth r)) (cc_secret (clconf_of cfg c)) = true).
 Proof. exact replyh_emits_wf_rw. Qed.
 Print Assumptions C06_delivered_wf.
+
+(* local replies.  local_reply_ok md5 cfg msg c' p :=
+     wf_packet p /\ code of p in {Access-Accept, Access-Reject, Accounting-Response, Disconnect-NAK, CoA-NAK} /\
+     Identifier of p = Identifier of msg /\ response_auth_ok md5 p (authenticator of msg) (secret of c') /\
+     (code <> Accounting-Response -> first_is_msgauth p /\ all_msgauth_ok md5 p (Some (authenticator of msg)) (secret of c')) *)
+Theorem C06_local_reply_wf : forall md5, (forall x, length (md5 x) = 16%nat) -> (forall x, wf_bytes (md5 x) = true) ->
+  forall rx cfg fs st h c now rnd c' p,
+  In (OReply c' p) (snd (radsrv md5 rx cfg fs st h c now rnd)) ->
+  rwo_wf (cc_rwin (clconf_of cfg c)) ->
+  match cc_rwuser (clconf_of cfg c) with Some m => wf_bytes (mod_repl m) = true | None => True end ->
+  (forall rl txt, In rl (cf_realms cfg) -> rl_msg rl = Some txt -> wf_bytes txt = true) ->
+  (forall r0, get_rq st h = Some r0 ->
+     rq_replybuf r0 = None /\ exists buf, rq_buf r0 = Some buf /\ wf_bytes buf = true /\ (20 <= length buf)%nat) ->
+  (exists h' r', get_rq st h' = Some r' /\ rq_replybuf r' = Some p /\ rq_from r' = Some c') \/
+  (exists r0 msg, get_rq st h = Some r0 /\ rq_from r0 = Some c' /\
+     buf2radmsg md5 (match rq_buf r0 with Some x => x | None => [] end) (cc_secret (clconf_of cfg c)) None = Some msg /\
+     local_reply_ok md5 cfg msg c' p).
+Proof. exact radsrv_replies. Qed.
+Print Assumptions C06_local_reply_wf.
